@@ -56,6 +56,8 @@ def run_utils(res, tier, binp, which=("tandem", "queue", "legacysort")):
     p = common.run_harness(binp, ["utils-replay", scen, outp])
     log(p.stdout.strip().splitlines()[-1])
     out = json.load(open(outp))
+    if out.get("degraded"):
+        res.cov["degraded"] = "internal helper API (TandemSorter / LimitedQueue / legacy sort) changed in /repo: the direct replay was skipped; the decoder / converter level parts still decide"
     res.cov["traces_validated_against_impl"] += out["scenarios"]
     res.cov["utils_scenarios"] = out["by_kind"]
     res.cov["utils_benign_conformance_differences"] = out["benign"]
